@@ -253,9 +253,21 @@ package pipeline
 // event (reset, when the batch is taken from the pool), so a trickle of events
 // cannot postpone the time-out flush.
 
+// (Add only queues: every event - a split parent too - is committed by commitBatch, in the
+// commit order of the batch it was put into, after that batch was sent: guard clause.)
+
 //@ func (*Batcher).Add
 //@   option check-nil yes
 //@   requires event != nil && event.Size >= 0
+//@   ghost napp int = 0
+//@   ghost gstop bool = true
+//@   ensures !gstop ==> napp == 1
+//@   callee Commit(e)
+//@     requires false
+//@   callee append(e)
+//@     requires e == event && napp == 0
+//@     set napp := napp + 1
+//@   setat "batch := b.getBatch()" gstop := false
 //@   bind trySendBatchAndUnlock lastSize := event.Size
 //@   ensures !held(b.mu)
 //@   ghost gcnt int = 0
